@@ -8,8 +8,11 @@ of what is on the wire that `Req.Props.C05H3Stream` compares it with.
                     consumer reads `l` payload bytes from the same stream (`io.ReadFull`); SETTINGS
                     frames are returned parsed; CANCEL_PUSH / PUSH_PROMISE / GOAWAY / MAX_PUSH_ID /
                     unknown (greased) frames are invisible; a reserved type or a SETTINGS error
-                    ends the stream with that error; end of input — clean or inside anything —
-                    is `eof`.
+                    ends the stream with that error; the end of the input exactly at a frame
+                    boundary is `eof` (clean end); the end inside a frame header, a SETTINGS payload
+                    or a skipped frame is `err unexpectedEOF` (truncated frame, RFC 9114 §7.1, the
+                    repaired fork /repo 690148e; quic-go v0.48 says `io.EOF`); the end inside a
+                    DATA / HEADERS payload is the consumer's `truncatedPayload`.
 * `IsVarint e v` — `e` is AN encoding of `v` (minimal or not): `Read` returns `v` and leaves
                     whatever follows. `AppendWithLen` produces such encodings
                     (`parse_nonminimal_ok`).
